@@ -34,6 +34,8 @@ def variants_for(msg, asn4):
         # labeled families: traffic-class bits set in every label entry (RFC 8277 2.2: ignored on receipt)
         out.append(('label-tc-bits', asn4, False, {'label_tc': 7}, msg))
     out.append(('other-as-width', not asn4, False, None, msg))
+    out.append(('add-path-table-all-false', asn4, False, {'ap_table_explicit': True}, msg))
+    out.append(('add-path-ipv4-others-false', asn4, [(1, 1)], {'path_id': 9, 'ap_table_explicit': True}, msg))
     out.append(('add-path', asn4, True, {'path_id': 7}, msg))
     out.append(('add-path-ipv4', asn4, [(1, 1)], {'path_id': 4294967295}, msg))
     if not asn4 and codes and 17 not in codes:
@@ -46,9 +48,14 @@ def variants_for(msg, asn4):
     return out
 
 
-def decode(data, asn4, add_path):
+def decode(data, asn4, add_path, explicit_false=False):
     from yabgp.message.update import Update
     ap = upd.afi_add_path(add_path) if add_path else None
+    if explicit_false:
+        # the table names every family and says False for those add-path was not agreed for (what a session that
+        # negotiated it for some families holds): a listed-but-False family carries no path identifiers
+        ap = dict((upd.FAMILIES[f], False) for f in upd.PREFIX_FAMILIES)
+        ap.update(upd.afi_add_path(add_path) if add_path else {})
     return budget.run(300 + 60 * len(data), Update.parse, None, data[19:], asn4, ap)
 
 
@@ -60,7 +67,7 @@ def check(msg, asn4, add_path, opts):
     data = upd.encode_update(msg, asn4, add_path, opts)
     if len(data) > 4096:
         return None, 'out-of-range'
-    st, got, steps = decode(data, asn4, add_path)
+    st, got, steps = decode(data, asn4, add_path, bool((opts or {}).get('ap_table_explicit')))
     if st == 'overrun':
         return 'no result within the work budget', {'hex': data.hex()[:400]}
     if st == 'raise':
